@@ -131,9 +131,11 @@ buf2args(char *buf, size_t buf_size, size_t max_args, char **args, size_t *args_
 		}
 		args[ret] = cur_pos;
 		args_sizes[ret] = data_size;
+		ret ++;
+		if (cur_size <= data_size) /* Last argument touches the end of buf: no delimiter to overwrite. */
+			break;
 		(*(cur_pos + data_size)) = 0;
 		data_size ++;
-		ret ++;
 
 		/* Move to next arg. */
 		cur_size -= data_size;
